@@ -33,6 +33,8 @@ const std::vector<Prof> kKmg = {
     {(1LL << 30), (1LL << 30), 0},                // 1 GiB steady: two of these next to the 2 GiB one put it EXACTLY at size_threshold=50
     {5LL << 29, 5LL << 29, 3LL << 29},            // 2.5 GiB steady, 1.5 GiB protected (effective 1 GiB): with the next one and the 1 GiB one it
     {3LL << 29, 3LL << 29, 0},                    // sits exactly at size_threshold=50 while 1.5 GiB steady has the larger effective usage
+    {30408704, 26391552, 0},                      // usage / moving average == 1.1 EXACTLY after the warm-up (26391552 / 23992320)
+    {1LL << 31, 1LL << 30, 0},                    // shrank to half: large, but far below any growth ratio
 };
 // 1074266112 = exactly 50% of the SwapTotal of memory configuration 1 ((2^21+1024) kB, not a multiple of 100 bytes): a usage AT the
 // percentage threshold is not above it
@@ -76,7 +78,7 @@ struct C09 : vr::Driver {
         for (int c = 0; c < nK; c++) {
           if (!th && !((a <= b && b <= c) || (a + b + c) % 7 == 0)) continue;  // quick: multisets + a slice of the permutations
           for (int st = 0; st < 3; st++)
-            for (int gr = 0; gr < 3; gr++)
+            for (int gr = 0; gr < 4; gr++)
               for (int pc = 0; pc < 4; pc++) items.push_back({0, {a, b, c, st, gr, pc}});
         }
     // kmg with 4 and 5 siblings (growing_size_percentile picks a different index than with 3): 6 profiles
@@ -90,7 +92,7 @@ struct C09 : vr::Driver {
           for (int k = 1; k < n; k++) sortedUp &= idx[k - 1] <= idx[k];
           if (sortedUp || (th && n == 4)) {  // multisets; all sequences for n=4 in thorough
             for (int st = 0; st < 3; st++)
-              for (int gr = 0; gr < 3; gr++)
+              for (int gr = 0; gr < 4; gr++)
                 for (int pc = 0; pc < 4; pc++) {
                   Item it{0, {}, n};
                   for (int k = 0; k < n; k++) it.p.push_back(sub[idx[k]]);
@@ -164,7 +166,7 @@ struct C09 : vr::Driver {
     auto& P = it.p;
     if (it.fam == 0) {
       static const char* st[] = {"0", "50", "100"};
-      static const char* gr[] = {"1", "1.25", "1.5"};
+      static const char* gr[] = {"1", "1.25", "1.5", "1.1"};
       static const char* pc[] = {"0", "50", "80", "99"};
       s.args["size_threshold"] = st[P[N]];
       s.args["min_growth_ratio"] = gr[P[N + 1]];
@@ -272,7 +274,8 @@ struct C09 : vr::Driver {
     auto& P = it.p;
     if (it.fam == 0) {
       static const int stv[] = {0, 50, 100}, pcv[] = {0, 50, 80, 99};
-      static const ld grv[] = {1.0L, 1.25L, 1.5L};
+      static const ld grv[] = {1.0L, 1.25L, 1.5L, 1.1L};
+      static const long long grNum[] = {1, 5, 3, 11}, grDen[] = {1, 4, 2, 10};  // the same ratios as exact fractions
       ld usage[5], eff[5], ratio[5], avgv[5];
       ld total = 0;
       for (int i = 0; i < N; i++) {
@@ -307,7 +310,13 @@ struct C09 : vr::Driver {
         bool size1 = exactT ? usage[i] >= floorl(T) : usage[i] >= T;
         if (!exactT && fabsl(usage[i] - T) <= tolT && stv[P[N]] != 0) open = true;
         bool grow = ratio[i] >= grv[P[N + 1]] && eff[i] >= effThr;
-        if (fabsl(ratio[i] - grv[P[N + 1]]) <= tolR) open = true;
+        // "ratios act at exactly the configured value": usage / average EQUAL to min_growth_ratio (as exact fractions) is a
+        // grower; only a ratio that is close to it without being equal is left open
+        bool exactlyAt = avgv[i] > 0 && (i128)usage[i] * grDen[P[N + 1]] == (i128)avgv[i] * grNum[P[N + 1]];
+        if (exactlyAt)
+          grow = eff[i] >= effThr;
+        else if (fabsl(ratio[i] - grv[P[N + 1]]) <= tolR)
+          open = true;
         if (avgv[i] > 0 && avgv[i] < 1000) open = true;  // integer EWMA of tiny values: left open
         c[i].phase = size1 ? 1 : grow ? 2 : 3;
         c[i].key = c[i].phase == 2 ? ratio[i] : eff[i];
@@ -408,9 +417,9 @@ struct C09 : vr::Driver {
   }
   std::string rule() override {
     return "flat sets of 3 equally-preferred siblings (kill_by_memory_size_or_growth also 4 and 5 siblings over 6 profiles, where growing_size_percentile selects a different rank), dry=true, first choice = cgroup named by the '(dry)' record of the evaluation tick. "
-           "kill_by_memory_size_or_growth: 13 (previous usage, usage, memory.low) profiles per sibling (sizes 0..2^61, 2^31 and 2^32 boundaries, "
+           "kill_by_memory_size_or_growth: 15 (previous usage, usage, memory.low) profiles per sibling (sizes 0..2^61, 2^31 and 2^32 boundaries, "
            "growth x1/x1.05/x1.25/x2/from nothing, half/fully protected) after a 5-tick warm-up x size_threshold {0,50,100} x min_growth_ratio "
-           "{1,1.25,1.5} x growing_size_percentile {0,50,80,99}; kill_by_swap_usage: swap {0,1,2^20,exactly 50% of a SwapTotal that is no multiple of 100,2^31-4096,2^31,2^32+4096,(2^40,2^61)} per sibling x 4 "
+           "{1,1.25,1.5,1.1} x growing_size_percentile {0,50,80,99}; kill_by_swap_usage: swap {0,1,2^20,exactly 50% of a SwapTotal that is no multiple of 100,2^31-4096,2^31,2^32+4096,(2^40,2^61)} per sibling x 4 "
            "(SwapTotal,MemTotal) pairs around 2^31/2^32 x threshold {default,0,50%,1.5G,4096K,2048} x biased x protection; kill_by_pressure: 8 "
            "(avg10,avg60) profiles with fractional means x resource; kill_by_io_cost: 7 two-tick io.stat profiles (zero, negative, huge increase; SSD/HDD/"
            "unconfigured device); kill_by_pg_scan: 7 two-tick pgscan profiles (zero, negative, +1, huge). Oracle: reference ranking in long double / exact "
